@@ -74,6 +74,9 @@ CLASSES = ["direct/elliptic", "direct/hyperbolic", "direct/dt>P", "direct/dt>100
                                      "whfast:barycentric", "mercurius", "trace", "saba", "safe_mode0", "safe_mode1"]] + \
           ["schedule/saba:" + t for t in ["1", "2", "3", "4", "10,4", "8,6,4", "10,6,4", "h8,4,4", "h8,6,4", "h10,6,4"]] + \
           ["schedule/steps_then_integrate:frac=%g" % x for x in (0.0, 1e-6, 0.3, 1.0, 1.7, 3.2)] + \
+          ["%s/%s" % (a_, b_) for a_ in ("step", "multistep", "schedule")
+           for b_ in ("gravity:basic", "gravity:compensated", "testparticle:m0", "testparticle:na1_t0",
+                      "testparticle:na1_t1", "compensated+N_active1")] + \
           ["multistep/asserted", "multistep/unsynchronized+variations", "multistep/var:none", "multistep/var:variation",
            "multistep/var:megno", "multistep/safe_mode0", "multistep/safe_mode1", "multistep/keep_unsynchronized1"]
 VARIANTS = ["avx512"]
@@ -424,6 +427,23 @@ prelude_item = st.tuples(st.sampled_from(PRELUDE_SCHEMES), st.integers(1, 3),
 prelude = st.one_of(st.just([]), st.lists(prelude_item, min_size=1, max_size=3))
 
 
+# options of the massless-planet cases: force routine (where the scheme leaves it to the user) and the way the
+# test particle is declared
+GRAV = st.sampled_from(["basic", "basic", "compensated"])
+TP = st.sampled_from(["m0", "m0", "na1_t0", "na1_t1"])
+
+
+def tp_opts(c, m1, sch, ctx):
+    """-> (grav, tp) effective for this case, with class counts."""
+    grav = c.get("grav", "basic") if (sch.startswith("whfast:") or sch.startswith("saba")) else "basic"
+    tp = c.get("tp", "m0") if m1 == 0 else "m0"
+    ctx.cls("gravity:" + grav)
+    ctx.cls("testparticle:" + tp)
+    if grav == "compensated" and tp != "m0":
+        ctx.cls("compensated+N_active1")
+    return grav, tp
+
+
 def step_case(schemes, g_choices, w512=False):
     extra = {}
     if not w512:
@@ -442,10 +462,22 @@ def step_case(schemes, g_choices, w512=False):
         "G": st.sampled_from(g_choices),
         "qm": st.one_of(st.just(0.0), S.logfloats(1e-9, 1.0)),      # planet/star mass ratio where exact
         "safe_mode": st.sampled_from([1, 1, 0]),
+        "grav": GRAV, "tp": TP,
     })
 
 
-def _configure(sim, sch, safe_mode):
+def _set_tp(sim, tp):
+    """Test-particle representation of the massless planet: m=0 among active bodies, or N_active=1."""
+    if tp and tp != "m0":
+        sim.N_active = 1
+        sim.testparticle_type = 1 if tp.endswith("t1") else 0
+        try:
+            sim.testparticle_hidewarnings = 1
+        except AttributeError:
+            pass
+
+
+def _configure(sim, sch, safe_mode, grav="basic"):
     """What a user switching integrators on a live simulation does: select the integrator and its options,
     re-select the basic gravity routine (WHFast/SABA/MERCURIUS/TRACE leave their own selected; REBOUND warns
     otherwise) and ask for coordinates to be recalculated."""
@@ -456,12 +488,14 @@ def _configure(sim, sch, safe_mode):
         sim.ri_whfast.coordinates = sch.split(":")[1]
         sim.ri_whfast.safe_mode = safe_mode
         sim.ri_whfast.recalculate_coordinates_this_timestep = 1
-    elif sch == "saba":
+        sim.gravity = grav          # WHFast / SABA (default kernel) leave the force routine to the user
+    elif sch == "saba" or sch.startswith("saba:"):
         sim.integrator = "saba"
-        sim.ri_saba.type = "1"
+        sim.ri_saba.type = sch.split(":", 1)[1] if ":" in sch else "1"
         sim.ri_saba.safe_mode = safe_mode
         sim.ri_whfast.coordinates = "jacobi"
         sim.ri_whfast.recalculate_coordinates_this_timestep = 1
+        sim.gravity = grav
     elif sch == "mercurius":
         sim.integrator = "mercurius"
         sim.ri_mercurius.safe_mode = safe_mode
@@ -495,6 +529,7 @@ def _step_call(a):
         sim.G = a["G"]
         for p in a["particles"]:
             sim.add(m=p[6], x=p[0], y=p[1], z=p[2], vx=p[3], vy=p[4], vz=p[5])
+        _set_tp(sim, a.get("tp"))
         for psch, k, frac, sm in a.get("prelude", []):
             _configure(sim, psch, sm)
             sim.dt = (abs(frac) if psch == "trace" else frac) * a["P"]     # TRACE: forward steps only
@@ -503,7 +538,7 @@ def _step_call(a):
             except (rebound.Escape, rebound.Encounter, rebound.Collision):
                 pass
             sim.synchronize()
-        _configure(sim, sch, a["safe_mode"])
+        _configure(sim, sch, a["safe_mode"], a.get("grav", "basic"))
         pre = []
         for i in range(sim.N):
             p = sim.particles[i]
@@ -526,6 +561,9 @@ def _step_call(a):
         p = sim.particles[i]
         out.append((p.x, p.y, p.z, p.vx, p.vy, p.vz))
     _step_state.pop("sim", None)
+    if sch.startswith("whfast:") or sch == "saba":
+        if sim.gravity != a.get("grav", "basic"):
+            raise RuntimeError("harness: gravity routine %r was replaced by %r" % (a.get("grav"), sim.gravity))
     return out, sim.t, enc, t0
 
 
@@ -591,6 +629,9 @@ def run_step(c, ctx):
                 return
             o = dict(o, pad_region=True)
     arg = {"G": G, "particles": parts, "scheme": sch, "safe_mode": c["safe_mode"], "dt": dt}
+    if sch != "whfast512":
+        grav, tp = tp_opts(c, m1, sch, ctx)
+        arg.update(grav=grav, tp=tp)
     w = worker("step", _step_call)
     pl = c.get("prelude") or []
     if pl and o["hyp"] and o["e_hyp"] - 1.0 < 0.02:
@@ -742,6 +783,7 @@ multi_case = st.fixed_dictionaries({
     "safe_mode": st.sampled_from([0, 0, 1]),
     "keep": st.sampled_from([1, 1, 0]),           # keep_unsynchronized (only valid with safe_mode=0)
     "var": st.sampled_from(["none", "variation", "variation", "megno"]),
+    "grav": GRAV, "tp": TP,
 })
 
 
@@ -753,7 +795,9 @@ def _multi_call(a):
     sim.G = a["G"]
     for p in a["particles"]:
         sim.add(m=p[6], x=p[0], y=p[1], z=p[2], vx=p[3], vy=p[4], vz=p[5])
+    _set_tp(sim, a.get("tp"))
     sim.integrator = "whfast"
+    sim.gravity = a.get("grav", "basic")
     sim.ri_whfast.coordinates = "jacobi"
     sim.ri_whfast.safe_mode = a["safe_mode"]
     sim.ri_whfast.keep_unsynchronized = a["keep"]
@@ -823,6 +867,8 @@ def run_multi(c, ctx):
         star = [0.0] * 6 + [m0]
         plan = list(r0) + list(v0) + [0.0]
     arg = {"G": G, "particles": [star, plan], "safe_mode": sm, "keep": keep, "var": c["var"], "dt": dt, "m": m}
+    grav, tp = tp_opts(c, m1 if c["var"] == "none" else 1.0, "whfast:jacobi", ctx)   # N_active=1 only without variations
+    arg.update(grav=grav, tp=tp)
     w = worker("multi", _multi_call)
     status, val = w.call(arg)
     what = "%d WHFast steps (safe_mode=%d keep_unsynchronized=%d %s)" % (m, sm, keep, c["var"])
@@ -907,6 +953,7 @@ sched_case = st.fixed_dictionaries({
     "G": st.sampled_from(G_CHOICES),
     "qm": st.one_of(st.just(0.0), S.logfloats(1e-9, 1.0)),
     "ops": st.lists(sched_op, min_size=1, max_size=5),
+    "grav": GRAV, "tp": TP,
 })
 
 
@@ -919,12 +966,8 @@ def _sched_call(a):
     for p in a["particles"]:
         sim.add(m=p[6], x=p[0], y=p[1], z=p[2], vx=p[3], vy=p[4], vz=p[5])
     sch = a["scheme"]
-    if sch.startswith("saba:"):
-        sim.integrator = "saba"
-        sim.ri_saba.type = sch.split(":", 1)[1]
-        sim.ri_saba.safe_mode = a["safe_mode"]
-    else:
-        _configure(sim, sch, a["safe_mode"])
+    _set_tp(sim, a.get("tp"))
+    _configure(sim, sch, a["safe_mode"], a.get("grav", "basic"))
     dt = a["dt"]
     sim.dt = dt
     enc = 0
@@ -979,6 +1022,8 @@ def run_sched(c, ctx):
         plan = list(r0) + list(v0) + [0.0]
     ops = [list(x) for x in c["ops"]]
     arg = {"G": G, "particles": [star, plan], "scheme": sch, "safe_mode": c["safe_mode"], "dt": dt, "ops": ops}
+    grav, tp = tp_opts(c, m1, sch, ctx)
+    arg.update(grav=grav, tp=tp)
     what = "schedule %r through %s (safe_mode=%d)" % (ops, sch, c["safe_mode"])
     w = worker("sched", _sched_call)
     status, val = w.call(arg)
